@@ -29,6 +29,12 @@ prop("C01", True,
      note="Trusted: go/ssa, VTA call graph (over-approximate; artefact paths are excepted one by one with reasons in tables/exceptions.json), recover semantics. NOT decided: implicit runtime panics inside a protected region are irrelevant, but implicit panics (index, nil map, type assertion) outside every barrier, termination of the ANTLR interpreter and of the hand-written lexer loop, and stack depth on deeply nested input are out of reach. Two baseline rows (logrus.Fatal in the linter) are reported as unconfirmed.",
      design="DESIGN.md §3 C01")
 
+prop("C06", True,
+     technique="SSA error-flow discipline (R-FLOW) with failure-region dominance, no-model-on-error and names-the-file dataflow rules, who-may-call rule for blocking primitives",
+     text="Decides structural necessary conditions of 'a failure anywhere fails the compile cleanly': for every error-returning call in the hand-written pipeline (pkg/parse parse.go/reader.go, pkg/loader, pkg/pbutil input side) the error is returned (possibly wrapped), or nil-tested with a failure branch that cannot rejoin the success path and ends in a non-nil error return, or stored in a field that is checked that way — a discarded or swallowed error is reported; every return of a (*sysl.Module,…,error) function in pkg/parse and pkg/loader carries a nil module unless its error operand is the nil constant (or delegates both results); every error returned by the per-file functions of parse.go is constructed from, or returned by a callee that received, the file name; no channel operation, blocking select, WaitGroup or Cond wait exists on the pipeline (errgroup.Wait is the only join, its pairing is decided under C05).",
+     note="Trusted: go/ssa; errgroup.Wait returns the first error; a callee that is handed the file name names it in its errors (read once for GuessFileType, FromPB*, ReadHashBranch). Not decided: which error is reported when several files fail, timing, crash-freedom of the failure paths (R-GUARD under C01). Nine exceptions with reasons (operation-summary writes, root-marker and modules.yaml probes, configuration errors before any file is read).",
+     design="DESIGN.md §3 C06")
+
 for i in range(1, 21):
     pid = "C%02d" % i
     if pid not in P:
